@@ -457,10 +457,14 @@ class Index:
 
     def all_functions(self, include_methods: bool = True, include_nested: bool = False) -> Iterator[FuncInfo]:
         for m in self.modules.values():
-            yield from m.functions.values()
+            tops = list(m.functions.values())
             if include_methods:
                 for c in m.classes.values():
-                    yield from c.methods.values()
+                    tops.extend(c.methods.values())
+            for f in tops:
+                yield f
+                if include_nested:
+                    yield from self.nested_functions(f)
 
     def subclasses(self, base: ClassInfo, strict: bool = True) -> List[ClassInfo]:
         return [c for c in self.all_classes() if c.is_subclass_of(base) and (c is not base or not strict)]
